@@ -61,7 +61,14 @@ def r25_1(ctx, rep):
     if fn is not None:
         kws = [k for c in calls(fn) if is_name(c.func, "E") for k in c.keywords if k.arg in ("name", "builtin")]
         tparam = fn.args.args[1].arg
-        ops = {s.targets[0].id for s in ast.walk(fn) if isinstance(s, ast.Assign) and isinstance(s.targets[0], ast.Name) and norm(s.value) == "%s.operator" % tparam}
+        def _op_leafs(v):
+            return _op_leafs(v.body) + _op_leafs(v.orelse) if isinstance(v, ast.IfExp) else [norm(v)]
+        cand = {}
+        for s in ast.walk(fn):
+            if isinstance(s, ast.Assign) and len(s.targets) == 1 and isinstance(s.targets[0], ast.Name):
+                cand.setdefault(s.targets[0].id, []).extend(_op_leafs(s.value))
+        # the operator's text: the operator itself, or its name when it is a reference — whether chosen by if/else or a conditional expression
+        ops = {k for k, leafs in cand.items() if leafs and set(leafs) <= {"%s.operator" % tparam, "%s.operator.name" % tparam} and "%s.operator" % tparam in leafs}
         ok = len(kws) == 2 and all(isinstance(k.value, ast.Name) and k.value.id in ops for k in kws) and len(ops) == 1
     rep.ob(R, "%s:%s.exitExpression" % (XML, CLS), "operator name", ok, "the element's operator name must be the expression's operator")
     if n < 6:
